@@ -102,6 +102,7 @@ func c15Round(r *core.Run, idx int, rng *rand.Rand) {
 		user     *sim.User
 		host     string
 		sessions []string
+		ref      []refAttr // attributes of the user as registered (deep copy)
 	}
 	cs := make([]*clientState, clients)
 	userOfApp := map[string]*sim.User{}
@@ -115,6 +116,10 @@ func c15Round(r *core.Run, idx int, rng *rand.Rand) {
 		e.W.AddUser(u)
 		userOfApp[fmt.Sprintf("appc%d", c)] = u
 		cs[c] = &clientState{sp: d, user: u, host: fmt.Sprintf("hc%d.idp.example", c)}
+		for _, a := range refAttributes(u) {
+			a.Values = append([]string(nil), a.Values...)
+			cs[c].ref = append(cs[c].ref, a)
+		}
 	}
 	e.W.UserFor = func(reqID, appID string) string {
 		if u := userOfApp[appID]; u != nil {
@@ -246,6 +251,9 @@ func c15Round(r *core.Run, idx int, rng *rand.Rand) {
 							report("own_callback_failed", kind, fmt.Sprintf("client %d: completed session %s not answered with Success (status %d)", c, id, call.D.Status), call)
 						} else {
 							m := call.D.Msg
+							if d := setDiffList(attrMultiset(st.ref), attrMultiset(msgAttrs(m))); d != "" {
+								report("reply_not_determined_by_own_request", kind, fmt.Sprintf("client %d: attribute statement differs from the registered record of %s: %s", c, st.user.Username, d), call)
+							}
 							if m.NameID != st.user.Username || m.Issuer != entityOf(st.host) || len(m.Audiences) != 1 || m.Audiences[0] != st.sp.EntityID || !strings.HasPrefix(call.D.RelayState, fmt.Sprintf("MK_c%dx", c)) || m.Destination != st.sp.ACS[0].Location {
 								report("reply_not_determined_by_own_request", kind, fmt.Sprintf("client %d: NameID %q Issuer %q Audience %v RelayState %q Destination %q", c, m.NameID, m.Issuer, m.Audiences, call.D.RelayState, m.Destination), call)
 							}
@@ -262,9 +270,17 @@ func c15Round(r *core.Run, idx int, rng *rand.Rand) {
 					q := conformantQuery(lr, st.sp, st.user.Username)
 					q.ID = fmt.Sprintf("MK_c%dxquery%d", c, k)
 					q.Destination = ""
+					if lr.Intn(3) == 0 {
+						askForSomeValues(lr, q, st.user)
+					}
 					call := do("query", env.Req{Method: "POST", Path: env.PathAttr, Body: q.XML(lr), CT: "text/xml"})
 					if call.Panic == "" && (!call.D.Success() || call.D.Msg.InResponseTo != q.ID || call.D.Msg.NameID != st.user.Username) {
 						report("reply_not_determined_by_own_request", "query", fmt.Sprintf("client %d: query reply status %d", c, call.D.Status), call)
+					} else if call.Panic == "" {
+						// the attributes are those of the record the query names, as registered
+						if d, _ := queryFilterDiff(st.ref, q.Attrs, msgAttrs(call.D.Msg)); d != "" {
+							report("reply_not_determined_by_own_request", "query", fmt.Sprintf("client %d: attributes differ from the registered record of %s: %s", c, st.user.Username, d), call)
+						}
 					}
 				case op < 9:
 					call := do("metadata", env.Req{Path: env.PathMetadata})
@@ -279,6 +295,9 @@ func c15Round(r *core.Run, idx int, rng *rand.Rand) {
 	}
 	close(start)
 	wg.Wait()
+	if mut := e.W.Mutated(); mut != "" {
+		r.Violate(core.Violation{Clause: "storage_record_changed", Class: "round", Reason: "a record owned by the storage was written to while serving requests, so later replies depend on earlier foreign requests: " + mut, Workload: wl, Index: idx})
+	}
 
 	// interleaving evidence from the storage event log
 	events := e.W.AllEvents()
